@@ -517,6 +517,26 @@ theorem gen_equivalent_shape :
 theorem gen_identical_ladder :
     Gen.identicalOrder = ["Integer", "Float", "Datetime", "Boolean", "Ternary", "String"] := by decide
 
+/-- the character the parser hands to `Calculate` for each arithmetic operator -/
+def opCode : AOp → Nat
+  | .add => 43 | .sub => 45 | .mul => 42 | .div => 47 | .mod => 37
+
+/-- `calculateInteger` as it stands in lib/query/arithmetic.go IS the model's `calcInt`: wrap-around results,
+    truncated division and remainder, division by zero refused — for all operands and operators -/
+theorem gen_calculateInteger_eq (op : AOp) (x y : Int) : Gen.calculateInteger x y (opCode op) = calcInt op x y := by
+  cases op <;> simp [Gen.calculateInteger, calcInt, opCode]
+
+/-- `calculateFloat` as it stands in the source is the model's `calcFloat`, whatever the float operations are -/
+theorem gen_calculateFloat_eq (fo : FloatOps) (op : AOp) (x y : FVal) :
+    Gen.calculateFloat fo x y (opCode op) = calcFloat fo op x y := by
+  cases op <;> simp [Gen.calculateFloat, calcFloat, opCode]
+
+/-- `Calculate`: integers first, then floats (both operands converted the same way, raw values handed over in
+    order), else NULL — the ladder of the model's `calculate` -/
+theorem gen_calc_ladder :
+    Gen.calcLadder = ["value.ToIntegerStrictly -> calculateInteger(val1,val2,operator)",
+      "value.ToFloat -> calculateFloat(val1,val2,operator)", "else -> value.NewNull()"] := by decide
+
 /-! ## non-vacuity: concrete operands meeting the hypotheses -/
 
 def exInt (i : Int) : Profile :=
